@@ -234,7 +234,31 @@ func relayScenario(s *verifsim.Sim) {
 	var cops []relayOp
 	helloAllAtOnce := true
 	firstChunk := 0
-	if hello != nil {
+	trickle := hello != nil && len(hello.data) > 40 && T.Chance(1, 8)
+	if trickle {
+		// a slow client: the first bytes arrive in many small pieces, each well within one sniffing
+		// timeout of the previous one, the whole taking several timeouts (dae's detection must
+		// still give up after its window instead of waiting for as long as the client trickles)
+		n := T.Range(6, 12)
+		rest := hello.data
+		step := len(rest) / (n + 1)
+		if step < 1 {
+			step = 1
+		}
+		first := 5 + T.Choose(8)
+		if first >= len(rest) {
+			first = len(rest) / 2
+		}
+		firstChunk = first
+		cops = append(cops, relayOp{kind: 0, data: rest[:first]})
+		rest = rest[first:]
+		for i := 0; i < n && len(rest) > step; i++ {
+			cops = append(cops, relayOp{kind: 1, sleep: sniffTimeout * 4 / 5}, relayOp{kind: 0, data: rest[:step]})
+			rest = rest[step:]
+		}
+		cops = append(cops, relayOp{kind: 1, sleep: sniffTimeout * 4 / 5}, relayOp{kind: 0, data: rest})
+		helloAllAtOnce = false
+	} else if hello != nil {
 		// cut the first bytes into 1-4 writes with gaps
 		cuts := T.Range(0, 3)
 		rest := hello.data
